@@ -50,6 +50,14 @@ theorem antisym_sum_zero (n : Nat) (nb : Nat → List Nat) (h : symCert n nb = t
 theorem sum_range_list (n : Nat) (f : Nat → K) : ∑ i ∈ range n, f i = ((List.range n).map f).sum := by
   rw [Finset.sum, Finset.range_val, Multiset.range, Multiset.map_coe, Multiset.sum_coe]
 
+/-- inter-assembly gap: any antisymmetric exchange between adjacent gap cells (conduction with symmetric constants) sums to
+zero over the gap mesh of a certified core layout -/
+theorem gap_exchange_zero {nasm nsc : Nat} {asmrow : Nat → List Nat} {sideLen : Nat → Nat → Nat} {nbr : Nat → Nat → Option Nat}
+    {own : Nat → Nat} {scadj : Nat → List Nat} (h : gapCert nasm nsc asmrow sideLen nbr own scadj = true)
+    (f : Nat → Nat → K) (hf : ∀ i j, f j i = - f i j) :
+    ∑ c ∈ range nsc, ((scadj c).map (f c)).sum = 0 :=
+  antisym_sum_zero nsc scadj (gapCert_sym h) f hf
+
 /-- summing a field over the images of a permutation of the cells is summing it over the cells -/
 theorem perm_sum (n : Nat) (D : Nat → Nat) (hm : ∀ i, i < n → D i < n)
     (hinj : ∀ i, i < n → ∀ j, j < n → D i = D j → i = j) (T : Nat → K) :
